@@ -25,12 +25,20 @@ for d, _, fs in os.walk(pkg):
         b = base_text(rel)
         if b is not None and b == data:
             continue  # unchanged by the package
-        if rel in shared or b is not None:
+        if rel in shared:
             print("SHARED-CHANGED", rel)
             continue
+        if rel.startswith("lean/SnowModel/Generated/"):
+            continue  # regenerated on every run
+        if b is not None:
+            print("updated", rel)
         dst = os.path.join(V, rel)
         if rel.startswith("REPORT_"):
             dst = os.path.join(V, "reports", rel)
+        cur = open(dst, "rb").read() if os.path.exists(dst) else None
+        if b is not None and cur is not None and cur != b and cur != data:
+            print("CONFLICT (main changed it too; not copied):", rel)
+            continue
         os.makedirs(os.path.dirname(dst), exist_ok=True)
         if os.path.exists(dst) and open(dst, "rb").read() != data:
             print("OVERWRITE", rel)
